@@ -62,6 +62,7 @@ def run_one(name: str, in_repo: bool, tier: str):
             shutil.rmtree(tree, ignore_errors=True)
     res["caught"] = any(c["exit"] == 1 and any(l.startswith("VIOLATION") for l in c["lines"])
                         for c in res["checks"].values())
+    res["kind"] = meta.get("kind", "breaking")
     return res
 
 
@@ -78,7 +79,12 @@ def main():
     for n in names:
         r = run_one(n, in_repo, tier)
         out.append(r)
-        tag = "ERROR " + r["error"] if "error" in r else ("CAUGHT" if r["caught"] else "MISSED")
+        if "error" in r:
+            tag = "ERROR " + r["error"]
+        elif r.get("kind") == "benign":
+            tag = "ALARM-ON-HARMLESS-CHANGE" if r["caught"] else "QUIET (as it should be)"
+        else:
+            tag = "CAUGHT" if r["caught"] else "MISSED"
         print(f"{n}: {tag} {json.dumps(r.get('checks', {}))[:400]}", flush=True)
     prev = {}
     f = SEEDED / "RESULTS.json"
